@@ -112,6 +112,7 @@ impl ServerConfig {
     ///
     /// Returns `ConfigError` if:
     /// - Builds file doesn't exist
+    /// - CDN hosts or path cannot be represented in a BPSV cell
     /// - TLS cert is provided without key (or vice versa)
     /// - TLS cert/key files don't exist
     pub fn validate(&self) -> Result<(), crate::error::ConfigError> {
@@ -123,6 +124,28 @@ impl ServerConfig {
                 "builds file not found: {}",
                 self.builds.display()
             )));
+        }
+
+        // The CDN hosts and path are written verbatim into the cells of the
+        // cdns response; BPSV has no escaping, so a value with a cell or row
+        // separator yields a response no client can parse
+        for (field, value) in [("cdn_hosts", &self.cdn_hosts), ("cdn_path", &self.cdn_path)] {
+            if value.contains(['|', '\r', '\n']) {
+                return Err(ConfigError::InvalidValue {
+                    field: field.to_string(),
+                    reason: "contains '|', CR or LF, which BPSV cannot represent inside a cell"
+                        .to_string(),
+                });
+            }
+        }
+
+        // The path is also the last cell of a cdns row (ConfigPath), and BPSV
+        // readers strip whitespace at the ends of a row
+        if self.cdn_path.trim() != self.cdn_path {
+            return Err(ConfigError::InvalidValue {
+                field: "cdn_path".to_string(),
+                reason: "has leading or trailing whitespace, which BPSV readers strip".to_string(),
+            });
         }
 
         // Validate TLS configuration
